@@ -116,3 +116,47 @@ pub proof fn lemma_affine_mix(a: real, b: real, x: real, e: real, w: real)
     assert(b * w + b * (1real - w) == b) by(nonlinear_arith);
     assert(a * (x * w + e * (1real - w)) == a * (x * w) + a * (e * (1real - w))) by(nonlinear_arith);
 }
+
+// homogeneous two-pole recursion f2 = b1 f1 + c3 f0 with b1 = 2 a c, c3 = -a^2: the quadratic form V(u,v) = u^2 - b1 u v + a^2 v^2
+// contracts by exactly a^2 per step (Lyapunov identity) and is non-negative for |c| <= 1
+pub proof fn lemma_two_pole_lyapunov(a: real, c: real, f0: real, f1: real)
+    ensures ({ let b1 = 2real * a * c; let f2 = b1 * f1 + (-a * a) * f0;
+               f2 * f2 - b1 * (f2 * f1) + (a * a) * (f1 * f1) == (a * a) * (f1 * f1 - b1 * (f1 * f0) + (a * a) * (f0 * f0)) })
+{
+    let b1 = 2real * a * c; let aa = a * a; let f2 = b1 * f1 + (-a * a) * f0;
+    assert((-a * a) * f0 == -(aa * f0)) by(nonlinear_arith) requires aa == a * a;
+    let g = f2 - b1 * f1;                      // = -aa f0
+    assert(g == -(aa * f0));
+    assert(f2 * f2 - b1 * (f2 * f1) == f2 * g) by(nonlinear_arith) requires g == f2 - b1 * f1;
+    assert(f2 * g == -(aa * f0) * f2) by(nonlinear_arith) requires g == -(aa * f0);
+    assert(-(aa * f0) * f2 == -(aa * f0) * (b1 * f1) + (aa * f0) * (aa * f0)) by(nonlinear_arith) requires f2 == b1 * f1 - aa * f0;
+    assert((aa * f0) * (b1 * f1) == aa * (b1 * (f1 * f0))) by(nonlinear_arith);
+    assert((aa * f0) * (aa * f0) == aa * (aa * (f0 * f0))) by(nonlinear_arith);
+    assert(aa * (f1 * f1 - b1 * (f1 * f0) + aa * (f0 * f0)) == aa * (f1 * f1) - aa * (b1 * (f1 * f0)) + aa * (aa * (f0 * f0))) by(nonlinear_arith);
+    assert(f2 == b1 * f1 - aa * f0);
+    assert(-(aa * f0) * (b1 * f1) == -((aa * f0) * (b1 * f1))) by(nonlinear_arith);
+    assert(f2 * f2 - b1 * (f2 * f1) + aa * (f1 * f1) == aa * (f1 * f1 - b1 * (f1 * f0) + aa * (f0 * f0)));
+}
+pub proof fn lemma_two_pole_form_nonneg(a: real, c: real, u: real, v: real)
+    requires -1real <= c <= 1real
+    ensures u * u - (2real * a * c) * (u * v) + (a * a) * (v * v) >= 0real
+{
+    let w = a * v;
+    // u^2 - 2 c u w + w^2 = (u - c w)^2 + (1 - c^2) w^2 >= 0
+    assert((2real * a * c) * (u * v) == 2real * c * (u * w)) by(nonlinear_arith) requires w == a * v;
+    assert((a * a) * (v * v) == w * w) by(nonlinear_arith) requires w == a * v;
+    assert(u * u - 2real * c * (u * w) + w * w == (u - c * w) * (u - c * w) + (1real - c * c) * (w * w)) by(nonlinear_arith);
+    assert((u - c * w) * (u - c * w) >= 0real) by(nonlinear_arith);
+    assert((1real - c * c) * (w * w) >= 0real) by(nonlinear_arith) requires -1real <= c <= 1real;
+}
+pub proof fn lemma_lin2(c2: real, c3: real, a1: real, a0: real, b1: real, b0: real)
+    ensures (c2 * a1 + c3 * a0) - (c2 * b1 + c3 * b0) == c2 * (a1 - b1) + c3 * (a0 - b0)
+{
+    assert(c2 * (a1 - b1) == c2 * a1 - c2 * b1) by(nonlinear_arith);
+    assert(c3 * (a0 - b0) == c3 * a0 - c3 * b0) by(nonlinear_arith);
+}
+pub proof fn lemma_convex_diff(w: real, e1: real, e2: real, x: real)
+    ensures (x * w + e1 * (1real - w)) - (x * w + e2 * (1real - w)) == (1real - w) * (e1 - e2)
+{
+    assert((1real - w) * (e1 - e2) == e1 * (1real - w) - e2 * (1real - w)) by(nonlinear_arith);
+}
